@@ -546,7 +546,7 @@ func genFull(r *rng, maxN int) []*Obj {
 }
 
 func genCase18(seed uint64, profile string, i int, maxN int) *C18Case {
-	streams := map[string]uint64{"flat": 1, "hist": 2, "full": 3, "big": 4}
+	streams := map[string]uint64{"flat": 1, "hist": 2, "full": 3, "big": 4, "corpus": 5}
 	r := caseRng(seed, streams[profile], i)
 	c := &C18Case{I: i, Profile: profile}
 	switch profile {
@@ -558,6 +558,27 @@ func genCase18(seed uint64, profile string, i int, maxN int) *C18Case {
 	case "full":
 		c.Blobs = genFull(r, maxN)
 		c.Q = uint64(2 + r.n(8))
+	case "corpus": // the minimal inputs of the known order-dependent classes, replayed first on every run
+		X := &Obj{C: 1, ID: 1, T: 0, Size: 3, Exp: -1, ECR: -1, ECI: -1}
+		L := &Obj{C: 1, ID: 2, T: 2, Exp: 2, Assoc: 1, ECR: -1, ECI: -1}
+		T := &Obj{C: 1, ID: 3, T: 1, Exp: -1, Assoc: 1, ECR: -1, ECI: -1}
+		c.Q = 5
+		switch i % 5 {
+		case 0, 1: // expired lock + tombstone (rebuilt at epoch 0 / at the real epoch, fixed below)
+			c.Blobs = []*Obj{X, L, T}
+		case 2: // tombstoned and expired
+			c.Blobs = []*Obj{{C: 1, ID: 1, T: 0, Size: 3, Exp: 2, ECR: -1, ECI: -1}, T}
+		case 3: // child with the parent's header and the parent's tombstone
+			par := &Obj{C: 1, ID: 1, T: 0, Size: 10, Exp: -1, ECR: -1, ECI: -1}
+			c.Blobs = []*Obj{{C: 1, ID: 4, T: 0, Size: 5, Exp: -1, ParID: 1, First: 3, Par: par, ECR: -1, ECI: -1}, {C: 1, ID: 8, T: 1, Exp: -1, Assoc: 1, ECR: -1, ECI: -1}}
+		case 4: // tombstone before / after its plain target, a lock elsewhere: must be order-independent
+			c.Blobs = []*Obj{X, T, {C: 1, ID: 5, T: 0, Size: 1, Exp: -1, ECR: -1, ECI: -1}, {C: 1, ID: 6, T: 2, Exp: 9, Assoc: 5, ECR: -1, ECI: -1}}
+		}
+		c.E = c.Q
+		if i%5 == 0 || i%5 == 3 {
+			c.E = 0
+		}
+		return c
 	case "big": // more blobs than one resync batch: regular objects, a few tombstones and locks
 		n := maxN
 		for id := 1; id <= n; id++ {
